@@ -399,6 +399,7 @@ class ModulePattern(Pattern):
             r'^end[ \t]*module\b(?:[ \t](?P=name))?',
             re.IGNORECASE | re.DOTALL | re.MULTILINE
         )
+        self._end_module_pattern = re.compile(r'^end[ \t]*module\b.*?$', re.IGNORECASE | re.MULTILINE)
 
     def match(self, reader, parser_classes, scope):
         """
@@ -417,6 +418,13 @@ class ModulePattern(Pattern):
         match = self.pattern.search(reader.sanitized_string)
         if not match:
             return None, None, reader
+
+        # Modules cannot be nested: the first END MODULE statement after the module's start is its end.
+        # The lazy matching of the contained procedures can overshoot it (e.g. if a module procedure
+        # has an internal procedure), swallowing the following modules; in that case match again up to there
+        end_match = self._end_module_pattern.search(reader.sanitized_string, match.start())
+        if end_match and end_match.end() < match.end():
+            match = self.pattern.search(reader.sanitized_string, match.start(), end_match.end()) or match
 
         # Check if the Module node has been created before by looking it up in the scope
         module = None
